@@ -42,10 +42,33 @@ func init() {
 	})
 }
 
+// dataSyncHelper: the method of PeriodicSyncer that performs a data sync up to NotifySyncCompleted – whatever it is named.
+func dataSyncHelper(c *Ctx) *ssa.Function {
+	var found *ssa.Function
+	for _, f := range c.pkgFuncs(localRel) {
+		n := recvNamedOfFn(f)
+		if n == nil || n.Obj().Name() != "PeriodicSyncer" || f.Parent() != nil || f.Blocks == nil {
+			continue
+		}
+		calls := false
+		allInstrs(f, func(ins ssa.Instruction) {
+			// the method that completes a sync (it tells the source that the sync is done); the call of the
+			// DataSyncer itself may sit in a retry helper of its own
+			if cc := callOf(ins); cc != nil && invokeOnRecvField(f, cc, "source", "NotifySyncCompleted") {
+				calls = true
+			}
+		})
+		if calls && (found == nil || f.Name() < found.Name()) {
+			found = f
+		}
+	}
+	return found
+}
+
 func runR022(c *Ctx) {
 	// --- notifyAndSyncDataLocked
-	if fn := c.Method(localRel, "PeriodicSyncer", "notifyAndSyncDataLocked"); fn == nil || fn.Blocks == nil {
-		c.Broken("PeriodicSyncer.notifyAndSyncDataLocked not found")
+	if fn := dataSyncHelper(c); fn == nil || fn.Blocks == nil {
+		c.Broken("PeriodicSyncer: no method reports a completed sync to the source")
 	} else {
 		name := FuncName(fn)
 		var viol []string
@@ -282,10 +305,10 @@ func runR032(c *Ctx) {
 		return
 	}
 	name := FuncName(fn)
-	nas := c.Method(localRel, "PeriodicSyncer", "notifyAndSyncDataLocked")
+	nas := dataSyncHelper(c)
 	wpr := c.Method(localRel, "PeriodicSyncer", "writePersistentStateRetrying")
 	if nas == nil || wpr == nil {
-		c.Broken("notifyAndSyncDataLocked / writePersistentStateRetrying not found")
+		c.Broken("the data-sync helper / writePersistentStateRetrying not found")
 		return
 	}
 	// automaton state bits: 1 timer received, 2 sync(false) done, 4 sync(true) done after sync(false), 8 state written after the last sync, 16 order violation
